@@ -44,6 +44,19 @@ func (in *Interp) installStubs8() {
 	delegate("os.Getenv", "hOsGetenv")
 	S["github.com/mattn/go-isatty.IsTerminal"] = func(in *Interp, a []Value) Value { return st.F }
 	S["github.com/mattn/go-isatty.IsCygwinTerminal"] = func(in *Interp, a []Value) Value { return st.F }
+	S["github.com/mattn/go-runewidth.StringWidth"] = func(in *Interp, a []Value) Value {
+		// contract: printable ASCII has width 1 per byte; anything else is outside the
+		// model (the harness restricts column assertions to printable ASCII excerpts)
+		w := 0
+		for _, b := range in.bytesOf(a[0]) {
+			printable := st.And(st.Bin(smt.OpBvUle, st.BVConstI(0x20, 8), b), st.Bin(smt.OpBvUle, b, st.BVConstI(0x7e, 8)))
+			if !in.Ctx.Branch(printable) {
+				abortf("unsupported: runewidth of a non-printable or non-ASCII character")
+			}
+			w++
+		}
+		return st.BVConstI(int64(w), 64)
+	}
 	S["runtime.Version"] = func(in *Interp, a []Value) Value { return Str{S: "go"} }
 	S["os.Environ"] = func(in *Interp, a []Value) Value { return SliceV{} }
 	S["fmt.Fprintf"] = func(in *Interp, a []Value) Value {
